@@ -393,6 +393,13 @@ func c18Result(err error) string {
 
 // c18Run executes one case against the real client and returns the case line.
 func c18Run(caps string, enabled bool, kind string, args []string, script string) caseLine {
+	return c18RunSeq(caps, enabled, nil, kind, args, script)
+}
+
+// c18RunSeq: as c18Run, after a first command `pre` (with its own script and closing NOOP) on the
+// same connection; the case line (kind `seq`) then carries the first command as context and the
+// observation of the second.
+func c18RunSeq(caps string, enabled bool, pre *c18Job, kind string, args []string, script string) caseLine {
 	probe := c18ProbeByKind(kind)
 	cli, srv := memPipe()
 	srv.SetReadDeadline(time.Now().Add(c18Deadline))
@@ -404,14 +411,22 @@ func c18Run(caps string, enabled bool, kind string, args []string, script string
 		srv.Close()
 		cli.Close()
 	}()
-	fields := []string{caps, b01(enabled), kind, "", script}
-	rl := make([]string, len(args))
-	for i, a := range args {
-		rl[i] = c18rle([]byte(a))
+	rleArgs := func(args []string) string {
+		rl := make([]string, len(args))
+		for i, a := range args {
+			rl[i] = c18rle([]byte(a))
+		}
+		return strings.Join(rl, "|")
 	}
-	fields[3] = strings.Join(rl, "|")
+	lineKind := "cmd"
+	fields := []string{caps, b01(enabled)}
+	if pre != nil {
+		lineKind = "seq"
+		fields = append(fields, pre.kind, rleArgs(pre.args), pre.script)
+	}
+	fields = append(fields, kind, rleArgs(args), script)
 	fail := func(status string) caseLine {
-		return caseLine{kind: "cmd", fields: append(fields, "-", "-", status, "err")}
+		return caseLine{kind: lineKind, fields: append(fields, "-", "-", status, "err")}
 	}
 	if err := c.WaitGreeting(); err != nil {
 		return fail("nogreeting")
@@ -433,6 +448,24 @@ func c18Run(caps string, enabled bool, kind string, args []string, script string
 		}
 		s.buf = nil
 		tag = 2
+	}
+	if pre != nil {
+		pdone := make(chan struct{})
+		go func() {
+			c18ProbeByKind(pre.kind).run(c, pre.args)
+			c.Noop().Wait()
+			close(pdone)
+		}()
+		if _, _, st := s.serve(fmt.Sprintf("T%d", tag), fmt.Sprintf("T%d", tag+1), pre.script); st != "done" {
+			return fail("noprelude")
+		}
+		select {
+		case <-pdone:
+		case <-time.After(c18Deadline):
+			return fail("noprelude")
+		}
+		s.buf = nil
+		tag += 2
 	}
 	res := make(chan string, 1)
 	go func() {
@@ -460,7 +493,7 @@ func c18Run(caps string, enabled bool, kind string, args []string, script string
 	if len(as) > 0 {
 		actStr = strings.Join(as, ",")
 	}
-	return caseLine{kind: "cmd", fields: append(fields, c18rle(wire), actStr, status, result)}
+	return caseLine{kind: lineKind, fields: append(fields, c18rle(wire), actStr, status, result)}
 }
 
 func replayC18(e *emitter, kind string, f []string) {
@@ -474,6 +507,19 @@ func replayC18(e *emitter, kind string, f []string) {
 			args = append(args, string(c18unrle(a)))
 		}
 		l := c18Run(f[0], f[1] == "1", f[2], args, f[4])
+		e.emit(l.kind, l.fields...)
+	case "seq":
+		if len(f) < 8 {
+			return
+		}
+		un := func(s string) []string {
+			var args []string
+			for _, a := range strings.Split(s, "|") {
+				args = append(args, string(c18unrle(a)))
+			}
+			return args
+		}
+		l := c18RunSeq(f[0], f[1] == "1", &c18Job{kind: f[2], args: un(f[3]), script: f[4]}, f[5], un(f[6]), f[7])
 		e.emit(l.kind, l.fields...)
 	case "has":
 		if len(f) < 2 {
@@ -502,6 +548,7 @@ var c18CapSets = [][]string{
 	{"IMAP4rev2"},
 	{"IMAP4rev1", "IMAP4rev2"},
 	{"IMAP4rev1", "LITERAL+", "LITERAL-"},
+	{"IMAP4rev1", "ENABLE", "UTF8=ACCEPT"}, // advertised, and enabled only in the `enabled` variant
 }
 
 // the capabilities of the Has table: every name CapSet.Has treats specially, the thirteen folded
@@ -645,6 +692,9 @@ func genC18(e *emitter, tier string, seed uint64) {
 				p := &c18Probes[pi]
 				set := append([]string(nil), base...)
 				if enabled {
+					if len(base) == 3 && base[2] == "UTF8=ACCEPT" {
+						continue // the same as {IMAP4rev1} with the ENABLE exchange
+					}
 					set = append(set, "ENABLE", "UTF8=ACCEPT")
 				}
 				set = append(set, p.extra...)
@@ -740,7 +790,7 @@ func genC18(e *emitter, tier string, seed uint64) {
 				continue
 			}
 			set := append([]string(nil), c18CapSets[r.intn(len(c18CapSets))]...)
-			enabled := r.chance(1, 2)
+			enabled := r.chance(1, 2) && !(len(set) == 3 && set[2] == "UTF8=ACCEPT")
 			if enabled {
 				set = append(set, "ENABLE", "UTF8=ACCEPT")
 			}
@@ -765,6 +815,53 @@ func genC18(e *emitter, tier string, seed uint64) {
 			jobs = append(jobs, c18Job{strings.Join(set, ","), enabled, p.kind, a, "p"})
 		}
 	}
+
+	// 3. a refused command followed by a command with a synchronising literal: the continuation
+	// request must still reach the command it answers
+	type seqJob struct {
+		caps    string
+		enabled bool
+		pre     c18Job
+		next    c18Job
+	}
+	var seqs []seqJob
+	for _, base := range [][]string{{"IMAP4rev1"}, {"IMAP4rev1", "LITERAL-"}} {
+		for _, enabled := range []bool{false, true} {
+			set := append([]string(nil), base...)
+			if enabled {
+				set = append(set, "ENABLE", "UTF8=ACCEPT")
+			}
+			caps := strings.Join(set, ",")
+			long := c18Rep("a", 4097)
+			pres := []c18Job{
+				{kind: "login", args: []string{long, long}},
+				{kind: "login", args: []string{long, "x"}},
+				{kind: "rename", args: []string{long, long}},
+				{kind: "append", args: []string{long, c18Rep("m", 4097)}},
+				{kind: "setmetadata", args: []string{long, long, long}},
+				{kind: "search-orbody", args: []string{long, long}},
+			}
+			nexts := []c18Job{
+				{kind: "login", args: []string{long, "x"}, script: "p"},
+				{kind: "append", args: []string{"x", c18Rep("m", 4097)}, script: "p"},
+				{kind: "search-body", args: []string{long}, script: "P"},
+			}
+			for _, pre := range pres {
+				for _, sc := range []string{"n", "b", "pn"} {
+					pre.script = sc
+					for _, nx := range nexts {
+						seqs = append(seqs, seqJob{caps, enabled, pre, nx})
+					}
+				}
+			}
+		}
+	}
+	defer parCases(e, len(seqs), func(i int) []caseLine {
+		q := seqs[i]
+		l := c18RunSeq(q.caps, q.enabled, &q.pre, q.next.kind, q.next.args, q.next.script)
+		l.counts = []string{"seq:" + q.pre.kind + "/" + q.pre.script + ">" + q.next.kind}
+		return []caseLine{l}
+	})
 
 	parCases(e, len(jobs), func(i int) []caseLine {
 		j := jobs[i]
